@@ -240,6 +240,7 @@ GuardsObs2(e) ==
      CG("no_goroutine_left", {"C14", "C09"}, cs.pclosed => e.goroutines <= 0),
      CG("closed_scopes_unreachable", {"C14"}, cs.pclosed => e.alive_scopes = <<>>),
      CG("instances_unreachable", {"C14"}, cs.pclosed => e.alive_insts = <<>>),
+     CG("refused_creation_leaves_nothing", {"C14"}, \A i \in DOMAIN e.orphans : e.orphans[i] = "canceled"),
      CG("contexts_cancelled", {"C14", "C13"}, cs.pclosed => \A s \in (SNames \ {"root"}) \cap DOMAIN e.ctx : e.ctx[s] = "canceled")}
 
 Guards2(e) ==
